@@ -148,7 +148,8 @@ class FuncInfo(object):
             self.owner = wrapped_owner
             self.self_name = params[0]
             self.is_session = True
-        self.is_init = node.name == "__init__" and self.self_name is not None
+        # (__post_init__ is the tail of the constructor a dataclass synthesises: same standing as __init__)
+        self.is_init = node.name in ("__init__", "__post_init__") and self.self_name is not None
         self.own_stmts = list(self._own(node))
         self.locals_assigned = {}
         for n in self.own_stmts:
@@ -562,6 +563,13 @@ class Analyzer(object):
         if not isinstance(f, ast.Attribute):
             return
         name = f.attr
+        if name in ("__setattr__", "__delattr__") and isinstance(f.value, ast.Name) and f.value.id == "object" \
+                and "object" not in fi.local_names and n.args:
+            # object.__setattr__(o, name, v): the frozen-dataclass spelling of a store on o
+            ok, why = self.judge_base(fi, n.args[0])
+            if not ok:
+                self.report(why[0], fi, n, why[1] + " (via object.%s)" % name)
+            return
         if name not in MUT_BUILTIN_ONLY and name not in MUT_AMBIGUOUS:
             return
         recv = f.value
